@@ -33,7 +33,7 @@ ASSUMPTIONS = [
 MIN_EVENTS = {
     'quick': {'connections_checked': 300, 'payloads_checked': 1400, 'disconnections_checked': 200,
               'adv_events_checked': 300, 'steal_cases': 30},
-    'thorough': {'connections_checked': 6000, 'payloads_checked': 40000, 'disconnections_checked': 4000,
+    'thorough': {'connections_checked': 5000, 'payloads_checked': 22000, 'disconnections_checked': 4000,
                  'adv_events_checked': 6000, 'steal_cases': 600},
 }
 CASE_TIMEOUT = 300
